@@ -1,34 +1,36 @@
 """C08 - Statistics equal their definitions and are additive over windows (schedule clause and plumbing only)."""
 from __future__ import annotations
 
-from . import lib_stats, lib_module, lib_py, lib_guards, lib_sweep, lib_err
+from . import scopes
+import json
+
+from . import lib_stats, lib_module, lib_py, lib_guards, lib_sweep
 
 LEVEL = "other"
 EXPLANATION = ("Thread independence of the GIL-released regions and the Python worker fan-out, mode / span_normalise / polarised / "
                "centre plumbing with polarity, no ignored or crossed statistic options, exact and present argument validators, "
                "length-equality next to every memcmp-based allele comparison, full sweep-loop termination in the statistic kernels, "
                "C-contiguous index/weight arrays. Every value-level claim (definitions, additivity) is declined.")
-STAT_METHODS = None
 
 
 def run(ctx):
     P = ctx.program()
     py = ctx.python()
+    ps, ms = scopes.py_scope("C08", py), scopes.module_scope("C08", P)
     lib_stats.gil_regions(ctx, P)
     lib_stats.python_threads(ctx, py)
     lib_stats.stats_mode(ctx, P)
     lib_stats.validators(ctx, P)
     lib_stats.string_equality(ctx, P)
-    import json
     frozen = json.load(open(lib_module.OPTIONS_TABLE))["methods"]
     stat_funcs = {f for f, es in frozen.items() if any(e.get("flag", "").startswith("TSK_STAT_") for e in es)}
     lib_module.options_plumbing(ctx, P, funcs=stat_funcs)
-    lib_module.array_flags(ctx, P)
-    lib_module.parsed_used(ctx, P)
-    lib_sweep.sweep_conditions(ctx, P)
+    lib_module.array_flags(ctx, P, only=ms)
+    lib_module.parsed_used(ctx, P, only=ms)
+    lib_sweep.sweep_conditions(ctx, P, tus=["trees"])
     funcs = set(lib_stats.VALIDATORS)
     seen = lib_guards.analyse(ctx, P, funcs=funcs)
     lib_guards.presence(ctx, seen, funcs=funcs)
-    lib_py.kw_forward(ctx, py, mods=("trees", "stats"))
-    lib_py.unused_params(ctx, py, mods=("trees", "stats"))
-    lib_py.ll_positional(ctx, py, P)
+    lib_py.kw_forward(ctx, py, mods=("trees", "stats"), only=ps)
+    lib_py.unused_params(ctx, py, mods=("trees", "stats"), only=ps)
+    lib_py.ll_positional(ctx, py, P, only=ps)
